@@ -32,7 +32,17 @@ theorem PyTy.eqF_sound : ∀ (n : Nat) (a b : PyTy), PyTy.eqF n a b = true → a
     case literal.literal => rw [h]
     case unknown.unknown => rw [h]
 
-theorem PyTy.eqb_sound {a b : PyTy} (h : PyTy.eqb a b = true) : a = b := PyTy.eqF_sound _ a b h
+theorem PyTy.eqb_sound {a b : PyTy} (h : PyTy.eqb a b = true) : a = b := by
+  have ih := PyTy.eqF_sound 16
+  cases a <;> cases b <;> simp only [PyTy.eqb, Bool.false_eq_true, Bool.and_eq_true, beq_iff_eq] at h <;> try rfl
+  case cls.cls => rw [h]
+  case enum.enum => rw [h]
+  case seq.seq => rw [ih _ _ h]
+  case dict.dict => rw [ih _ _ h.1, ih _ _ h.2]
+  case tuple.tuple a b => rw [eqL_sound _ a b (fun x _ y hxy => ih x y hxy) h]
+  case union.union a b => rw [eqL_sound _ a b (fun x _ y hxy => ih x y hxy) h]
+  case literal.literal => rw [h]
+  case unknown.unknown => rw [h]
 
 theorem inU_sound {U : List PyTy} {t : PyTy} (h : inU U t = true) : t ∈ U := by
   simp only [inU, List.any_eq_true] at h
